@@ -1,6 +1,7 @@
 package stake
 
 import (
+	"encoding/json"
 	"fmt"
 	"github.com/holiman/uint256"
 	cfg "github.com/rigochain/rigo-go/cmd/config"
@@ -80,7 +81,11 @@ func NewStakeCtrler(config *cfg.Config, govHandler ctrlertypes.IGovHandler, logg
 	}
 
 	// set `lastValidators` of StakeCtrler
-	_ = ret.UpdateValidators(int(govHandler.MaxValidatorCnt()))
+	// The validator set last reported to the consensus engine is restored as it was recorded at the last commit.
+	// If there is no such record (e.g. data written by an older version), it starts empty like before.
+	if !ret.loadLastValidators(delegateeLedger.Version()) {
+		_ = ret.UpdateValidators(int(govHandler.MaxValidatorCnt()))
+	}
 
 	return ret, nil
 }
@@ -121,6 +126,46 @@ func (ctrler *StakeCtrler) InitLedger(req interface{}) xerrors.XError {
 	ctrler.lastValidators = genesisValidators
 
 	return nil
+}
+
+// savedValidators is the record of the validator set last reported to the consensus engine.
+// It is in-memory state of StakeCtrler which can not be derived from the ledgers after restarting.
+type savedValidators struct {
+	Height     int64            `json:"height"`
+	Validators []savedValidator `json:"validators"`
+}
+
+type savedValidator struct {
+	Addr   types.Address  `json:"address"`
+	PubKey bytes.HexBytes `json:"pubKey"`
+	Power  int64          `json:"power,string"`
+}
+
+func (ctrler *StakeCtrler) saveLastValidators(height int64) {
+	rec := &savedValidators{Height: height}
+	for _, v := range ctrler.lastValidators {
+		rec.Validators = append(rec.Validators, savedValidator{Addr: v.Addr, PubKey: v.PubKey, Power: v.TotalPower})
+	}
+	if bz, err := json.Marshal(rec); err == nil {
+		_ = ctrler.rwdHashDB.PutLastValidators(bz)
+	}
+}
+
+func (ctrler *StakeCtrler) loadLastValidators(height int64) bool {
+	bz := ctrler.rwdHashDB.LastValidators()
+	if bz == nil {
+		return false
+	}
+	rec := &savedValidators{}
+	if err := json.Unmarshal(bz, rec); err != nil || rec.Height != height {
+		return false
+	}
+	var vals DelegateeArray
+	for _, v := range rec.Validators {
+		vals = append(vals, &Delegatee{Addr: v.Addr, PubKey: v.PubKey, TotalPower: v.Power})
+	}
+	ctrler.lastValidators = vals
+	return true
 }
 
 func snapshotDelegatee(d *Delegatee) (*Delegatee, xerrors.XError) {
@@ -845,6 +890,8 @@ func (ctrler *StakeCtrler) Commit() ([]byte, int64, xerrors.XError) {
 	if v0 != v1 || v1 != v2 {
 		return nil, -1, xerrors.ErrCommit.Wrapf("error: StakeCtrler.Commit() has wrong version number - v0:%v, v1:%v, v2:%v", v0, v1, v2)
 	}
+
+	ctrler.saveLastValidators(v0)
 
 	if v0%ctrler.rwdLedgUpInterval == 0 {
 		_ = ctrler.rwdHashDB.PutLastRewardHash(h2)
